@@ -7,8 +7,23 @@
      op # hp                      refused (finding F21: the check was missing; fix 92ffa74)
      otherwise                    accepted with hp points; ip < n leaves the tail of the attribute zero, ip > n makes the kd-tree decoder
                                   produce more points than the attribute holds -- the output iterator must drop them
-   Level B (drift).  The verdict is Level A of C02 / C03 / C18 on what the real decoder does with the assembled stream.                *)
+   Level B (drift).  The verdict is Level A of C02 / C03 / C18 on what the real decoder does with the assembled stream.
+   The float ("quantization") method of the same container (FloatPointsTreeDecoder) names the count a fourth time: fp in the float tree's own header, in
+   front of the integer kd-tree payload with its ip.
+     op # hp, fp # hp             refused (fp: also when the header declares 0 points -- finding F22: 0 doubled as "not set"; fix d52225a)
+     ip > fp                      refused by the payload decoder (F22: it used to append ip points to the vector reserved for fp)
+     ip # fp                      refused afterwards (the number of decoded points is compared with fp)
+     hp = 0 = op = fp             accepted, no points                                                                                     *)
 EXTENDS Integers
+DecodeQ(n, hp, op, fp, ip, level) ==
+  IF hp < 0 THEN [out |-> "rej:negative-points", np |-> 0]
+  ELSE IF op # hp THEN [out |-> "rej:count-mismatch", np |-> 0]
+  ELSE IF fp # hp THEN [out |-> "rej:float-count-mismatch", np |-> 0]
+  ELSE IF level > 6 THEN [out |-> "rej:level", np |-> 0]
+  ELSE IF fp = 0 THEN [out |-> "acc", np |-> 0]
+  ELSE IF ip > fp THEN [out |-> "rej:payload-count", np |-> 0]
+  ELSE IF ip # fp THEN [out |-> "rej:decoded-count", np |-> 0]
+  ELSE [out |-> "acc", np |-> hp]
 Decode(n, hp, op, ip, level) ==
   IF hp < 0 THEN [out |-> "rej:negative-points", np |-> 0]
   ELSE IF level > 6 THEN [out |-> "rej:level", np |-> 0]
